@@ -1,6 +1,8 @@
 package rules
 
 import (
+	"go/types"
+
 	"lachk/core"
 )
 
@@ -22,6 +24,16 @@ func c25Pool(c *core.Ctx) {
 		a := m.Inner.Call.Args
 		okArgs := c25Role(m.G, m.Env, a[1]) == "key" && c25Role(m.G, m.Env, a[3]) == "id"
 		c.Check(okArgs, "mark uses the pool's key and the flush ID", "provenance", m.Inner.Pos(), "MarkFlushID(db, p.flushIDKey, ·, id)", "a flush mark is written with a different key or ID")
+		// the mark must be on disk when MarkFlushID returns: it is put into the underlying database (the
+		// value InitUnderlyingDb() yields), not into a flushable wrapper whose Put only buffers it
+		kind := c25StoreKind(m.G, m.Env, a[0], 3)
+		whyStore := "the database argument cannot be traced to the wrapper's InitUnderlyingDb() result"
+		if kind == c25Buffered {
+			whyStore = "the database argument is a flushable store (" + types.TypeString(m.G.Info().TypeOf(a[0]), func(p *types.Package) string { return p.Name() }) + "), whose Put only buffers the pair in the overlay"
+		}
+		c.Check(kind == c25Raw, "flush marks are written to the underlying database", "provenance", m.Inner.Pos(),
+			"the mark is put into the store returned by InitUnderlyingDb() (durable when the call returns)",
+			"in "+short(m.G.Name)+" a flush mark is not written to the underlying database: "+whyStore+"; the mark reaches the disk only with a later data batch, so after a crash between a drop (or a batch chunk) and that write the databases still show the previous clean flush ID")
 		switch c25Role(m.G, m.Env, a[2]) {
 		case c25Dirty:
 			nDirty++
